@@ -1,6 +1,7 @@
 package main
 
 import (
+	"encoding/json"
 	"flag"
 	"fmt"
 	"os"
@@ -14,7 +15,7 @@ import (
 
 func main() {
 	if len(os.Args) < 2 {
-		fmt.Fprintln(os.Stderr, "usage: gosym run|check ...")
+		fmt.Fprintln(os.Stderr, "usage: gosym run|check|replay ...")
 		os.Exit(2)
 	}
 	switch os.Args[1] {
@@ -22,6 +23,8 @@ func main() {
 		cmdRun(os.Args[2:])
 	case "check":
 		cmdCheck(os.Args[2:])
+	case "replay":
+		cmdReplay(os.Args[2:])
 	default:
 		fmt.Fprintln(os.Stderr, "unknown command", os.Args[1])
 		os.Exit(2)
@@ -115,4 +118,56 @@ func cmdRun(args []string) {
 	sort.Strings(fsn)
 	fmt.Println("funcs with symbolic operands:", len(fsn))
 	_ = filepath.Join
+}
+
+// cmdReplay re-runs a stored counterexample against the real build of /repo's current tree.
+// usage: gosym replay <PROP> <replay.json>; exit 1 (and a VIOLATION line) if the assertion fails again.
+func cmdReplay(args []string) {
+	if len(args) < 2 {
+		fmt.Fprintln(os.Stderr, "usage: gosym replay <PROP> <replay.json>")
+		os.Exit(2)
+	}
+	spec, ok := props[args[0]]
+	if !ok {
+		fmt.Fprintln(os.Stderr, "unknown property", args[0])
+		os.Exit(2)
+	}
+	b, err := os.ReadFile(args[1])
+	if err != nil {
+		fmt.Fprintln(os.Stderr, err)
+		os.Exit(2)
+	}
+	var vec struct {
+		Entry string `json:"entry"`
+		Tag   string `json:"tag"`
+	}
+	if err := json.Unmarshal(b, &vec); err != nil {
+		fmt.Fprintln(os.Stderr, err)
+		os.Exit(2)
+	}
+	for _, run := range spec.Runs {
+		if run.Entry != vec.Entry {
+			continue
+		}
+		rep := run.Repeat
+		if rep < 1 {
+			rep = 1
+		}
+		res, out, err := nativeReplay(run, []string{args[1]}, rep)
+		if err != nil {
+			fmt.Println(lastLines(out, 30))
+			fmt.Fprintln(os.Stderr, "replay failed to run:", err)
+			os.Exit(2)
+		}
+		failed := res[args[1]]
+		fmt.Printf("entry=%s recorded-assertion=%q failed-natively=%v observations=%s\n", vec.Entry, vec.Tag, failed, nativeObs[args[1]])
+		if tagReproduced(vec.Tag, failed) {
+			fmt.Printf("VIOLATION property=%s replay=%s\n", args[0], args[1])
+			os.Exit(1)
+		}
+		fmt.Println("not reproduced on the current tree")
+		os.Exit(0)
+	}
+	fmt.Fprintln(os.Stderr, "no harness entry", vec.Entry, "in", args[0])
+	os.Exit(2)
 }
